@@ -465,7 +465,7 @@ pub fn export_case(coll: &str, n: usize, order: &str, expired_every: usize, seed
                 let _ = t.get_value(10, KKey { k, exp: i32::MAX, tag: 1 });
             }
             let s = t.verif_snapshot(|_, _| ());
-            n = s.slots.len() - 1 - s.free.len();
+            n = snap::reachable(&s).iter().filter(|x| **x).count();
             arena_slots = s.slots.len();
             rep.counters.inc("exports_of_drained_arena");
             rep.counters.max("max_arena_slots_over_stored_entries", (arena_slots / n.max(1)) as u64);
